@@ -470,23 +470,27 @@ func TestVerifC30(t *testing.T) {
 	add := func(bound int, scripts ...string) {
 		cfgs = append(cfgs, c30Cfg{name: fmt.Sprintf("c30-%s-f%d", strings.Join(scripts, "_"), bound), scripts: scripts, bound: bound, faults: bound > 0})
 	}
-	add(1, "S", "S")
-	add(1, "A", "A")
-	add(1, "A", "S")
+	// scenarios expected clean on the unchanged tree come first (they are the ones that expose a
+	// broken claim / ownership test), then the scenarios that contain deactivations
+	add(2, "S", "S")
+	add(2, "A", "A")
+	add(2, "A", "S")
+	add(1, "S", "R")
+	add(0, "A", "A", "A")
 	add(0, "SD", "S")
 	add(0, "AD", "A")
 	add(0, "SDS", "S")
 	add(1, "SS", "S")
-	add(0, "S", "S", "S")
 	if r.Thorough() {
-		add(2, "S", "S")
-		add(2, "A", "S")
+		add(1, "R", "R")
+		add(0, "S", "S", "S")
+		add(1, "S", "S", "S")
 		add(1, "SD", "S")
 		add(1, "SD", "A")
 		add(1, "AD", "S")
-		add(1, "S", "S", "S")
-		add(0, "SD", "S", "S")
+		add(0, "SD", "R")
 		add(0, "SD", "SD")
+		add(0, "SD", "S", "S")
 		add(0, "SDS", "SD")
 	}
 	var scs []vsched.Scenario
